@@ -27,6 +27,7 @@ def check(run):
     D.ob_state_mutations(run, "O20.4", ['execution::DummyExecution', 'execution::BlockExec'], 'block execution records are written once per block and folded in order')
     prog = run.program("lib")
     ob_trie_lookup(run, "O20.5")
+    ob_trie_arith(run, "O20.6")
 
     # ------------------------------------------------------------------ O20.1
     o = run.ob("O20.1", "fork isolation by typing: no unsafe, Freeze nodes, only Arc::make_mut/get_mut yield &mut into shared nodes, no &mut Node / Arc<Node> escapes",
@@ -360,3 +361,196 @@ def _is_inc(t, is_base):
         return False
     a, c = K.peel(t[2]), K.peel(t[3])
     return (is_base(a) and K.const_eval(c) == 1) or (is_base(c) and K.const_eval(a) == 1)
+
+
+def _bin(t, op):
+    t = K.peel(t)
+    if isinstance(t, tuple) and t and t[0] == "field" and t[2] == "0":
+        t = t[1]
+    if isinstance(t, tuple) and t and t[0] == "cast":
+        return _bin(t[2], op)
+    if isinstance(t, tuple) and t and t[0] == "bin" and t[1].replace("WithOverflow", "").replace("Unchecked", "") == op:
+        return t
+    return None
+
+
+def _is_bit(t, is_chunk):
+    """1 << chunk"""
+    b = _bin(t, "Shl")
+    return b is not None and K.const_eval(b[2]) == 1 and is_chunk(K.peel(b[3]))
+
+
+def _is_low_mask_count(t, is_chunk):
+    """count_ones(bitmap & ((1 << chunk) - 1)) as usize"""
+    t = K.peel(t)
+    while isinstance(t, tuple) and t and t[0] == "cast":
+        t = K.peel(t[2])
+    if not (isinstance(t, tuple) and t and t[0] == "call" and t[1].rsplit("::", 1)[-1] == "count_ones"):
+        return False
+    a = _bin(t[2][0], "BitAnd")
+    if a is None:
+        return False
+    sides = [a[2], a[3]]
+    bm = [x for x in sides if K.is_field(x, "bitmap", "Branch")]
+    ms = [x for x in sides if x not in bm]
+    if len(bm) != 1 or len(ms) != 1:
+        return False
+    m = _bin(ms[0], "Sub")
+    return m is not None and _is_bit(m[2], is_chunk) and K.const_eval(m[3]) == 1
+
+
+def ob_trie_arith(run, oid):
+    prog = run.program("lib")
+    o = run.ob(oid, "trie arithmetic: len bookkeeping, bitmap <-> children index agreement across child_index / insert_child / remove_child, chunk_at extracts "
+                    "BITS_PER_LEVEL bits at bit offset depth*BITS_PER_LEVEL",
+               "children are stored compactly in chunk order: the position of a chunk's child is the number of occupied lower chunks; if the three functions disagree, or "
+               "len is not adjusted exactly on a new / removed key, lookups hit the wrong child and len drifts from the number of entries", floor=14)
+    bits = prog.const_int(ST + "BITS_PER_LEVEL")
+    fan = prog.const_int(ST + "FANOUT")
+    o.check(bits is not None and fan == (1 << bits), "const|FANOUT", "FANOUT == 1 << BITS_PER_LEVEL (%s, %s)" % (fan, bits), "")
+    o.check(bits is not None and 1 <= bits and bits + 7 <= 16 and fan <= 32, "const|window", "a chunk starting at any bit of a byte fits the 16-bit window and the 32-bit bitmap", "")
+    # Branch
+    ci = prog.body(ST + "Branch::child_index")
+    if ci is None:
+        o.missing("Branch::child_index")
+    else:
+        isch = K.arg_pred(ci, 2)
+        somes = [(bb, rv, sp) for (bb, rv, sp, dst) in ci.aggregates("core::option::Option", "Some") if dst["l"] == 0]
+        nones = [(bb, rv, sp) for (bb, rv, sp, dst) in ci.aggregates("core::option::Option", "None") if dst["l"] == 0]
+        ok = len(somes) == 1 and _is_low_mask_count(ci.operand_term(somes[0][1]["ops"][0]), isch)
+        o.check(ok, "child_index|position", "Some(popcount(bitmap & ((1 << chunk) - 1)))", ci.span)
+
+        def occ_atom(a, pol):
+            if not (a[0] == "eq" and a[2] is pol):
+                return False
+            x = [t for t in a[1] if K.const_eval(t) != 0]
+            if len(x) != 1 or not any(K.const_eval(t) == 0 for t in a[1]):
+                return False
+            ba = _bin(x[0], "BitAnd")
+            return ba is not None and any(K.is_field(y, "bitmap", "Branch") for y in ba[2:4]) and any(_is_bit(y, isch) for y in ba[2:4])
+        ok = len(somes) == 1 and len(nones) == 1 and any(occ_atom(a, False) for a in G.guard_atoms(ci, somes[0][0], prog)) and any(occ_atom(a, True) for a in G.guard_atoms(ci, nones[0][0], prog))
+        o.check(ok, "child_index|occupancy", "None exactly when bitmap & (1 << chunk) == 0", ci.span)
+    ic = prog.body(ST + "Branch::insert_child")
+    if ic is None:
+        o.missing("Branch::insert_child")
+    else:
+        isch = K.arg_pred(ic, 2)
+        ins = [c for c in ic.calls() if c.name.rsplit("::", 1)[-1] == "insert" and K.mentions_field(ic.operand_term(c.args[0]), "children", "Branch")]
+        ok = len(ins) == 1 and _is_low_mask_count(ic.operand_term(ins[0].args[1]), isch) and K.is_arg(ic, ic.operand_term(ins[0].args[2]), 3)
+        o.check(ok, "insert_child|position", "children.insert(popcount(bitmap & ((1 << chunk) - 1)), child) - same position as child_index", ic.span)
+        ws = [(bb, rv) for (bb, ow, name, rv, sp, dst) in ic.field_writes() if name == "bitmap"]
+        ok = len(ws) == 1
+        if ok:
+            t = _bin(ic.rvalue_term(ws[0][1]), "BitOr")
+            ok = t is not None and any(K.is_field(y, "bitmap", "Branch") for y in t[2:4]) and any(_is_bit(y, isch) for y in t[2:4])
+        o.check(ok, "insert_child|sets-bit", "bitmap |= 1 << chunk", ic.span)
+        if ins and ws:
+            cnt = [c for c in ic.calls() if c.name.rsplit("::", 1)[-1] == "count_ones"]
+            o.check(len(cnt) == 1 and ic.dominates(cnt[0].bb, ws[0][0]) and cnt[0].bb != ws[0][0], "insert_child|position-before-bit", "the position is computed before the chunk's own bit is set",
+                    ic.span)
+    rc = prog.body(ST + "Branch::remove_child")
+    if rc is None:
+        o.missing("Branch::remove_child")
+    else:
+        isch = K.arg_pred(rc, 3)
+        ws = [(bb, rv) for (bb, ow, name, rv, sp, dst) in rc.field_writes() if name == "bitmap"]
+        ok = len(ws) == 1
+        if ok:
+            t = _bin(rc.rvalue_term(ws[0][1]), "BitAnd")
+            ok = t is not None and any(K.is_field(y, "bitmap", "Branch") for y in t[2:4]) and any(
+                isinstance(K.peel(y), tuple) and K.peel(y)[0] == "un" and "Not" in str(K.peel(y)[1]) and _is_bit(K.peel(y)[2], isch) for y in t[2:4])
+        o.check(ok, "remove_child|clears-bit", "bitmap &= !(1 << chunk)", rc.span)
+        rm = [c for c in rc.calls() if c.name.rsplit("::", 1)[-1] == "remove" and K.mentions_field(rc.operand_term(c.args[0]), "children", "Branch")]
+        o.check(len(rm) == 1 and K.is_arg(rc, rc.operand_term(rm[0].args[1]), 2), "remove_child|position", "children.remove(idx)", rc.span)
+    rr = prog.body(ST + "State::remove_rec")
+    if rr is not None:
+        cs = rr.calls_to(ST + "Branch::remove_child")
+        ok = len(cs) == 1
+        if ok:
+            a1, a2 = rr.operand_term(cs[0].args[1]), rr.operand_term(cs[0].args[2])
+            ok = K.mentions_call(a1, "child_index") and K.mentions_call(a2, "chunk_at") and not K.mentions_call(a2, "child_index")
+            # the idx comes from child_index of the same chunk
+            ok = ok and any(isinstance(x, tuple) and x and x[0] == "call" and x[1].endswith("child_index") and x[2][1] == K.peel(a2) for x in mir.walk(a1))
+        o.check(ok, "remove_rec|remove_child(idx, chunk)", "remove_child gets idx = child_index(chunk) and the same chunk", cs[0].span if cs else rr.span)
+    # chunk_at
+    ca = prog.body(ST + "chunk_at")
+    if ca is None:
+        o.missing("chunk_at")
+    else:
+        rets = [d for d in ca.defs().get(0, []) if d[0] == "stmt"]
+        ok = len(rets) == 1
+        det = {}
+        if ok:
+            t = ca.rvalue_term(rets[0][3]["rv"])
+            det["term"] = mir.show(t)[:400]
+            ba = _bin(t, "BitAnd")
+            ok = ba is not None
+            if ok:
+                sides = [ba[2], ba[3]]
+                mask = [x for x in sides if K.const_eval(x) is not None]
+                sh = [x for x in sides if x not in mask]
+                ok = len(mask) == 1 and len(sh) == 1 and K.const_eval(mask[0]) == fan - 1
+                if ok:
+                    shr = _bin(sh[0], "Shr")
+                    ok = shr is not None
+                    if ok:
+                        def is_bitpos(x):
+                            m = _bin(x, "Mul")
+                            return m is not None and any(K.is_arg(ca, y, 2) for y in m[2:4]) and any(K.const_eval(y) == bits for y in m[2:4])
+
+                        def is_byte(x, plus):
+                            if plus:
+                                a = _bin(x, "Add")
+                                return a is not None and K.const_eval(a[3]) == 1 and is_byte(a[2], False)
+                            d = _bin(x, "Div")
+                            if d is not None:
+                                return is_bitpos(d[2]) and K.const_eval(d[3]) == 8
+                            d = _bin(x, "Shr")
+                            return d is not None and is_bitpos(d[2]) and K.const_eval(d[3]) == 3
+                        # shift amount: 16 - BITS - bit % 8
+                        s1 = _bin(shr[3], "Sub")
+                        ok_s = False
+                        if s1 is not None:
+                            r = _bin(s1[3], "Rem")
+                            r2 = _bin(s1[3], "BitAnd")
+                            in_byte = (r is not None and is_bitpos(r[2]) and K.const_eval(r[3]) == 8) or (r2 is not None and is_bitpos(r2[2]) and K.const_eval(r2[3]) == 7)
+                            ok_s = K.const_eval(s1[2]) == 16 - bits and in_byte
+                        det["shift"] = mir.show(shr[3])[:200]
+                        # window: (key[bit/8] << 8) | key.get(bit/8+1).map_or(0)
+                        w = shr[2]
+                        idxs = [x for x in mir.walk(w) if isinstance(x, tuple) and x and x[0] == "index"]
+                        gets = [x for x in mir.walk(w) if isinstance(x, tuple) and x and x[0] == "call" and x[1].rsplit("::", 1)[-1] == "get"]
+                        hi_ok = len(idxs) == 1 and is_byte(idxs[0][2], False) and any(
+                            (lambda b_: b_ is not None and K.const_eval(b_[3]) == 8 and idxs[0] in list(mir.walk(b_[2])))(_bin(x, "Shl")) for x in mir.walk(w) if isinstance(x, tuple) and x and x[0] == "bin")
+                        lo_ok = len(gets) == 1 and is_byte(gets[0][2][1], True) and not any(
+                            (lambda b_: b_ is not None and gets[0] in list(mir.walk(b_[2])))(_bin(x, "Shl")) for x in mir.walk(w) if isinstance(x, tuple) and x and x[0] == "bin")
+                        o.check(ok_s, "chunk_at|shift", "shift = 16 - BITS_PER_LEVEL - (depth*BITS_PER_LEVEL) % 8", ca.span, det)
+                        o.check(hi_ok, "chunk_at|high-byte", "window high byte = key[(depth*BITS_PER_LEVEL) / 8] << 8", ca.span)
+                        o.check(lo_ok, "chunk_at|low-byte", "window low byte = key.get((depth*BITS_PER_LEVEL) / 8 + 1) or 0 (zero padding of the last chunk)", ca.span)
+        o.check(ok, "chunk_at|mask", "result = (window >> shift) & (FANOUT - 1)", ca.span, det)
+    # len bookkeeping
+    ib = prog.body(ST + "State::insert")
+    if ib is not None:
+        ws = [(bb, rv, sp) for (bb, ow, name, rv, sp, dst) in ib.field_writes() if name == "len" and ow.endswith("State")]
+        ok = len(ws) == 1 and _is_inc(ib.rvalue_term(ws[0][1]), lambda x: K.is_field(x, "len", "State"))
+        if ok:
+            ats = G.guard_atoms(ib, ws[0][0], prog)
+            ok = any(a[0] == "is_some" and a[2] is False and K.mentions_call(a[1][0], "insert_rec") for a in ats) and not D.extra_guards(prog, ib, ws[0][0], [lambda a: a[0] == "is_some" and K.mentions_call(a[1][0], "insert_rec")])
+        o.check(ok, "State::insert|len", "len += 1 exactly when insert_rec reports a new key", ib.span)
+    rb = prog.body(ST + "State::remove")
+    if rb is not None:
+        ws = [(bb, rv, sp) for (bb, ow, name, rv, sp, dst) in rb.field_writes() if name == "len" and ow.endswith("State")]
+        ok = len(ws) == 1
+        if ok:
+            t = _bin(rb.rvalue_term(ws[0][1]), "Sub")
+            ok = t is not None and K.is_field(t[2], "len", "State") and K.const_eval(t[3]) == 1
+            rm = rb.calls_to(ST + "State::remove_rec")
+            ok = ok and len(rm) == 1 and rb.dominates(rm[0].bb, ws[0][0])
+        o.check(ok, "State::remove|len", "len -= 1 after the key was removed", rb.span)
+    got = D.field_mutations(prog, ST + "State")
+    o.check(sorted(got.get("len", {})) == ["assign"] and len(got["len"]["assign"]) == 2, "State.len|writers", "len is written by insert and remove only", "",
+            {"writers": [x[0] for v in got.get("len", {}).values() for x in v]})
+    gb = D.field_mutations(prog, ST + "Branch")
+    o.check(sorted(gb.get("bitmap", {})) == ["assign"] and len(gb["bitmap"]["assign"]) == 2 and sorted(gb.get("children", {})) == ["index_mut", "insert", "remove"], "Branch|mutations",
+            "bitmap is written by insert_child / remove_child only; children mutated by insert, remove and in-place child replacement only", "",
+            {"bitmap": {k: [x[0] for x in v] for k, v in gb.get("bitmap", {}).items()}, "children": {k: [x[0] for x in v] for k, v in gb.get("children", {}).items()}})
